@@ -432,9 +432,18 @@ def step (st : St) (line : String) : St × List String :=
             st := { st with track := tr }
             return (st, errs)
           | _ => (st, [])
+        -- C14: within one lifetime of an entry the retries spent only go up (the 14 400-retry budget bounds the lifetime only then)
+        let budgetErr : List String :=
+          if unobserved then [] else
+          (st.prevSt.filterMap fun e =>
+            match iSt.find? (·.digest == e.digest) with
+            | some a => if a.retry < e.retry then
+                some s!"spec {id} retry-budget-refilled {op}: entry {e.digest} had spent {e.retry} of its retries, now {a.retry}: with a budget that is refilled the entry never expires"
+              else none
+            | none => none).take 1
         let st := updateLifetimes st now iSt
         let st := { st with prevSt := iSt, prevStS := if unobserved then "?" else iStS, prevDb := iDb }
-        let specErrs := govErr ++ gateErr ++ pubErrs ++ complErr ++ cleanErrs
+        let specErrs := govErr ++ gateErr ++ pubErrs ++ complErr ++ cleanErrs ++ budgetErr
         -- ---------- model vs implementation ----------
         if st.desync then (st, if specErrs.isEmpty then [] else specErrs) else
         match mres with
